@@ -1375,6 +1375,43 @@ func ruleNORECLASSIFY(c *Ctx, r *Report) {
 			}
 		}
 	}
+	// the printed form of a node is not a payload: String()/GoString() quote a text that contains a blank,
+	// print numbers and columns in their own ways and lose the kind — a leaf built from it carries characters
+	// the query did not contain
+	nPrinted := 0
+	for _, f := range c.Funcs {
+		p := fnPkgPath(f)
+		if p != pkgRoot && p != pkgReduce && p != pkgExpr {
+			continue
+		}
+		for _, b := range f.Blocks {
+			for _, in := range b.Instrs {
+				call, ok := in.(*ssa.Call)
+				if !ok || call.Call.StaticCallee() == nil {
+					continue
+				}
+				callee := call.Call.StaticCallee()
+				if fnPkgPath(callee) != pkgExpr || callee.Signature.Results().Len() != 1 || !isExprPtr(callee.Signature.Results().At(0).Type()) || callee.Signature.Recv() != nil {
+					continue
+				}
+				for ai, a := range c.flattenArgs(call, nil) {
+					av := c.resolve(a, nil)
+					if !isStringKind(av.Type()) {
+						continue // a number read back from the printed form is PROD-GUARD's (known) matter
+					}
+					k := c.key(av, nil)
+					if strings.Contains(k, "expr.(Expression).String(") || strings.Contains(k, "expr.(Expression).GoString(") || strings.Contains(k, "expr.(*Expression).String(") {
+						nPrinted++
+						r.bad(rule, fmt.Sprintf("%s|%s|arg%d←printed-form", fnName(f), fnName(callee), ai), c.instrPos(in),
+							fmt.Sprintf("%s builds a node from the printed form of another node (%s): the printed text is not the payload — a text containing a blank is printed between double quotes, so the new leaf's value gains two quote characters (and loses its kind)", fnName(f), k))
+					}
+				}
+			}
+		}
+	}
+	if nPrinted == 0 {
+		r.ok(rule, "printed-form", "-", "no node is built from the String()/GoString() of another node")
+	}
 	// inside the constructors themselves: the content classifier (raw value → Literal/Wild/Regexp leaf) is
 	// applied to raw operands only, never to the payload of a node that already has a kind
 	general := c.pkgFunc(pkgExpr, "Expr")
